@@ -1,13 +1,11 @@
 SPECIFICATION Spec
 CONSTANTS
-  Ls = {4}
-  Family = "reptab"
-  OpKinds = {}
-  Chunk = 40
+  Mode = "select"
+  L = 3
+  MaxIns = 3
+  Batch = 200
   Stride = 1
   Offset = 0
-  MaxGuest = 2
-  PureLen = 1
   Devs = {"RgPt", "BwRev", "BwOrigin", "WrapSlice", "RepairCp", "RepairJn"}
-INVARIANT DesignOK
+
 CHECK_DEADLOCK FALSE
